@@ -215,7 +215,7 @@ def run(tier: str, runs_override: Optional[int] = None) -> int:
         "coverage": {
             "evaluations": tot["runs"],
             "distinct_nontrivial": distinct,
-            "rule": "one evaluation = one simulated program: a pool of 2-4 random stub contracts, 1-4 compose/quotient/merge operations fed back into the pool, and a 48-frame adversary tape deciding the outcome of every primitive call; non-trivial = at least one operation RETURNED a contract (so an oracle was evaluated); distinct = distinct event-log digests (sequence of primitive calls with arguments' shapes and chosen outcomes) among those, counted with numpy.unique",
+            "rule": "one evaluation = one simulated program: a pool of 2-5 random stub contracts, 1-6 compose/quotient/merge operations fed back into the pool, and a 64-frame adversary tape deciding the outcome of every primitive call; non-trivial = at least one operation RETURNED a contract (so an oracle was evaluated); distinct = distinct event-log digests (sequence of primitive calls with arguments' shapes and chosen outcomes) among those, counted with numpy.unique",
             "samples": samples[:3],
             "programs": tot["runs"],
             "operations": tot["ops"],
